@@ -1,3 +1,7 @@
-#[cfg(any(not(verif_select), verif_gb))] #[path = "/verif/harness/ntp_proto/gb_probe_kalman.rs"] pub(crate) mod gb;
-#[cfg(any(not(verif_select), verif_ga))] #[path = "/verif/harness/ntp_proto/ga_probe_kalman.rs"] pub(crate) mod ga;
+#[cfg(any(not(verif_select), verif_ga))]
+#[path = "/verif/harness/ntp_proto/ga_probe_kalman.rs"]
+pub(crate) mod ga;
+#[cfg(any(not(verif_select), verif_gb))]
+#[path = "/verif/harness/ntp_proto/gb_probe_kalman.rs"]
+pub(crate) mod gb;
 pub(crate) use super::source::verif_probe as source_probe; // kalman::source is private: reachable as crate::algorithm::verif_probe::kalman_probe::source_probe
